@@ -8,17 +8,21 @@ use std::os::unix::process::ExitStatusExt;
 use std::process::{Command, Stdio};
 use std::time::{Duration, Instant};
 
-pub const CONSTRUCTS: [&str; 33] = [
+pub const CONSTRUCTS: [&str; 36] = [
     "neg", "not", "add", "and", "call", "builtin", "list", "map", "ifcond", "ifelse", "paren", "index", "contains", "listfirst",
     "listcomma", "listmap", "mapcomma", "ifthen", "callsum", "subright", "string", "negidx", "listidx", "mapidx", "indexnum",
-    "skipeq", "skipand", "skipor", "skipif", "skiplist", "skipmap", "skipcallarg", "escapes",
+    "skipeq", "skipand", "skipor", "skipif", "skiplist", "skipmap", "skipcallarg", "escapes", "adderr", "negerr", "listerr",
 ];
-pub const OPS: [&str; 9] = ["parse", "parse-rule", "display", "debug", "clone", "compare", "drop", "evaluate", "evaluate-in-ruleset"];
+pub const OPS: [&str; 11] = [
+    "parse", "parse-rule", "display", "debug", "clone", "compare", "drop", "evaluate", "evaluate-in-ruleset", "compare-rules", "debug-rule",
+];
 pub const STACKS: [(&str, usize); 2] = [("main8M", 8 << 20), ("worker2M", 2 << 20)];
 
 #[derive(Debug, Clone, PartialEq)]
 pub enum ChildResult {
     Completed,
+    /// the operation unwound (a Rust panic inside the child's worker thread)
+    Panicked,
     /// killed by a signal (stack overflow => SIGSEGV / SIGABRT)
     Crashed(i32),
     SetupRefused,
@@ -31,8 +35,19 @@ fn deep_bin() -> String {
     exe.parent().unwrap().join("rvv_deep").to_string_lossy().to_string()
 }
 
+/// the same child built with the dev profile (no optimisation: larger frames, no tail calls), if `./check` built it
+pub fn deep_bin_dev() -> Option<String> {
+    let exe = std::env::current_exe().ok()?;
+    let p = exe.parent()?.parent()?.join("debug").join("rvv_deep");
+    p.exists().then(|| p.to_string_lossy().to_string())
+}
+
 pub fn run_child(construct: &str, depth: usize, op: &str, stack: usize) -> ChildResult {
-    let mut child = match Command::new(deep_bin())
+    run_child_bin(&deep_bin(), construct, depth, op, stack)
+}
+
+pub fn run_child_bin(bin: &str, construct: &str, depth: usize, op: &str, stack: usize) -> ChildResult {
+    let mut child = match Command::new(bin)
         .args([construct, &depth.to_string(), op, &stack.to_string()])
         .stdin(Stdio::null())
         .stdout(Stdio::null())
@@ -50,7 +65,8 @@ pub fn run_child(construct: &str, depth: usize, op: &str, stack: usize) -> Child
                     return ChildResult::Crashed(sig);
                 }
                 return match st.code() {
-                    Some(0) | Some(4) | Some(5) => ChildResult::Completed,
+                    Some(0) | Some(4) => ChildResult::Completed,
+                    Some(5) => ChildResult::Panicked,
                     Some(3) => ChildResult::SetupRefused,
                     Some(c) => ChildResult::Other(c),
                     None => ChildResult::Other(-2),
@@ -89,12 +105,12 @@ fn known_safe(ctx: &Ctx, sig: &str) -> Option<(usize, String)> {
 
 pub fn run(ctx: &Ctx) {
     ctx.set_rule(
-        "Generated: expression texts of 33 recursive constructs (unary - and ! chains, left-deep a+a+..., and-chains, nested user \
+        "Generated: expression texts of 36 recursive constructs (unary - and ! chains, left-deep a+a+..., and-chains, nested user \
          calls, nested built-in calls, nested lists with the nested element last / first / before a trailing comma / inside a map, \
          nested maps (also with trailing comma), if nested in condition / then / else, parentheses, index chains, nested contains, \
          right-nested subtraction, calls of sums, one long string literal of escapes, deep terms followed by a numeric index, numeric \
-         index chains, and deep operands in never-evaluated positions of ==, and, or, if) x depth on a geometric ladder 16, 24, 32, ... (x1.5 / x1.33 steps) up to 2^17 (quick) / 2^18 \
-         (thorough) x operation in {parse, parse as rule, display, debug, clone, compare, drop, evaluate, evaluate as a rule of a ruleset built through with_rule / with_rules} x stack in {8 MiB, 2 MiB}; \
+         index chains, deep operands in never-evaluated positions of ==, and, or, if, and deep terms followed by a syntax error) x depth on a geometric ladder 16, 24, 32, ... (x1.5 / x1.33 steps) up to 2^17 (quick) / 2^18 \
+         (thorough) x operation in {parse, parse as rule, display, debug, clone, compare, drop, evaluate, evaluate as a rule of a ruleset built through with_rule / with_rules, compare two rules of different names holding the tree, debug-print a rule holding the tree} x stack in {8 MiB, 2 MiB}; \
          each case is one child process whose operation runs on a thread of exactly that stack size; trees are obtained by parsing \
          the text and leaked after the operation so that only the named operation recurses. Each (construct, operation, stack) \
          ladder is climbed until the first crash. Oracle: the child exits normally; death by signal is the property's failure; \
@@ -138,7 +154,8 @@ pub fn run(ctx: &Ctx) {
                     r.deep_runs += 1;
                 }
                 match run_child(c, d, o, *sbytes) {
-                    ChildResult::Completed => r.safe_max = d,
+                    // (a panic is a matter for C01 / C06; here only the stack matters)
+                    ChildResult::Completed | ChildResult::Panicked => r.safe_max = d,
                     ChildResult::Crashed(sig) => {
                         r.crash_at = Some((d, sig));
                         break;
